@@ -27,12 +27,19 @@ for _p in PROPS.values():
 HOOK_EVENTS = ["Append", "FlushWait", "FlushPrepare", "PubRead", "FlushFail", "FlushCommit", "Restore"]
 GATES = ["append", "flush", "upseg", "upidx", "updone", "pubread", "publish"]
 MBS = [0, 9, 80, 200]
-QUICK_MC = {"C01": ["MC_Log_quick.cfg", "MC_Log_inline_quick.cfg"], "C02": ["MC_Log_quick.cfg", "MC_Log_shapes_quick.cfg"],
+QUICK_MC = {"C01": ["MC_Log_quick.cfg", "MC_Log_inline_quick.cfg"], "C02": ["MC_Log_quick.cfg", "MC_Log_shapes_quick.cfg", "MC_Log_maxlod_quick.cfg"],
             "C03": ["MC_Log_read_quick.cfg", "MC_Log_crashread_quick.cfg", "MC_Log_async_quick.cfg"], "C04": ["MC_Log_read_quick.cfg", "MC_Log_crashread_quick.cfg", "MC_Log_idxloss_quick.cfg"],
             "C05": ["MC_Log_quick.cfg", "MC_Log_inline_quick.cfg"], "C06": ["MC_Log_quick.cfg", "MC_Log_crashread_quick.cfg", "MC_Log_idxloss_quick.cfg"]}
-ALL_QUICK = ["MC_Log_async_quick.cfg", "MC_Log_quick.cfg", "MC_Log_inline_quick.cfg", "MC_Log_read_quick.cfg", "MC_Log_crashread_quick.cfg", "MC_Log_shapes_quick.cfg", "MC_Log_idxloss_quick.cfg"]
-THOROUGH_MC = ALL_QUICK + ["MC_Log_thorough.cfg", "MC_Log_3p_thorough.cfg", "MC_Log_k3_thorough.cfg", "MC_Log_read_thorough.cfg", "MC_Log_readfault_thorough.cfg"]
-SIMS = {"Sim_Log_a.cfg": (0, 1), "Sim_Log_b.cfg": (2, 2), "Sim_Log_c.cfg": (3, 3), "Sim_Log_d.cfg": (0, 2), "Sim_Log_e.cfg": (0, 3), "Sim_Log_f.cfg": (2, 2)}
+ALL_QUICK = ["MC_Log_maxlod_quick.cfg", "MC_Log_async_quick.cfg", "MC_Log_quick.cfg", "MC_Log_inline_quick.cfg", "MC_Log_read_quick.cfg", "MC_Log_crashread_quick.cfg", "MC_Log_shapes_quick.cfg", "MC_Log_idxloss_quick.cfg"]
+THOROUGH_MC = {
+    "C01": QUICK_MC["C01"] + ["MC_Log_thorough.cfg", "MC_Log_3p_thorough.cfg", "MC_Log_k3_thorough.cfg"],
+    "C02": QUICK_MC["C02"] + ["MC_Log_thorough.cfg", "MC_Log_k3_thorough.cfg"],
+    "C03": QUICK_MC["C03"] + ["MC_Log_idxloss_quick.cfg", "MC_Log_read_thorough.cfg", "MC_Log_readfault_thorough.cfg"],
+    "C04": QUICK_MC["C04"] + ["MC_Log_async_quick.cfg", "MC_Log_read_thorough.cfg", "MC_Log_readfault_thorough.cfg"],
+    "C05": QUICK_MC["C05"] + ["MC_Log_thorough.cfg", "MC_Log_k3_thorough.cfg"],
+    "C06": QUICK_MC["C06"] + ["MC_Log_thorough.cfg", "MC_Log_3p_thorough.cfg", "MC_Log_readfault_thorough.cfg"],
+}
+SIMS = {"Sim_Log_a.cfg": (0, 1), "Sim_Log_b.cfg": (2, 2), "Sim_Log_c.cfg": (3, 3), "Sim_Log_d.cfg": (0, 2), "Sim_Log_e.cfg": (0, 3), "Sim_Log_f.cfg": (2, 2), "Sim_Log_g.cfg": (0, 2)}  # g: lastOffsetDelta = 2^31-1
 ASYNC_SIMS = {"Sim_Log_f.cfg"}  # flush-on-ack off  # d: 8 producers, many batches per segment
 DEV_PARAMS = {"NoRange": (0, 2), "TolerateLostIdx": (0, 2)}
 
@@ -75,7 +82,7 @@ def gen_schedules(ctx, d):
         for cache in (True, False):
             scheds.append({"inline": inline, "interval": interval, "cache": cache, "sync": True, "mbs": MBS, "steps": h})
             labels.append("dev:" + name)
-    nsim = 40 if ctx.quick() else 600
+    nsim = 40 if ctx.quick() else 250
     for i, (cfg, (inline, interval)) in enumerate(sorted(SIMS.items())):
         hs, _ = T.simulate_hists(ctx, d, "MC_Log.tla", cfg, num=nsim, depth=45, seed=ctx.seed * 7 + i, timeout=900)
         for j, h in enumerate(hs):
@@ -150,7 +157,7 @@ def nontrivial(s):
 def pipeline(ctx, prop):
     d = T.stage(ctx, DIR, "mc")
     mcs = {}
-    cfgs = QUICK_MC[prop] if ctx.quick() else THOROUGH_MC
+    cfgs = QUICK_MC[prop] if ctx.quick() else THOROUGH_MC[prop]
     if os.environ.get("VERIF_SKIP_MC"):  # development aid only: evidence then lacks states and the run is not a check
         cfgs = []
 
